@@ -190,14 +190,15 @@ def stack_event(darsia, rng, tid, n, k, timekind, shape, use_append):
     def proj(im):
         return {"tags": [int(x) for x in im.img.ravel()], "time": -1 if im.time is None else int(round(im.time)),
                 "date": -1 if im.date is None else int(round((im.date - BASE_DATE).total_seconds()))}
+    offset = rng.choice([0, 0, 5, 120]) if (use_append and timekind == "times") else 0
     e = {"tid": tid, "op": "stack", "k": k, "timekind": timekind, "via": "append" if use_append else "stack", "raised": 0,
-         "orig": [proj(im) for im in imgs], "back": []}
+         "orig": [proj(im) for im in imgs], "back": [], "offset": offset}
     try:
         if use_append:
             ser = imgs[0].copy()
             for i in range(1, k):
                 if timekind == "times":
-                    ser.append(imgs[i], offset=0)
+                    ser.append(imgs[i], offset=offset)
                 else:
                     ser.append(imgs[i])
         else:
